@@ -61,11 +61,17 @@ class LiteDRAMWishbone2Native(LiteXModule):
             port.cmd.last.eq(~wishbone.we), # Always wait for reads.
             port.flush.eq(~wishbone.cyc)    # Flush writes when transaction ends.
         ]
+        # With a wider Wishbone bus the write data is offered along with the command (the converter needs it
+        # as soon as its first sub-command is served). A port that takes data ahead of the command (FIFO-like:
+        # clock domain crossing) may consume it while still in CMD: remember that, do not offer it twice.
+        wdata_taken = Signal()
         fsm.act("CMD",
             port.cmd.valid.eq(wishbone.cyc & wishbone.stb),
             If(port.cmd.valid & port.cmd.ready &  wishbone.we, NextState("WRITE")),
             If(port.cmd.valid & port.cmd.ready & ~wishbone.we, NextState("READ")),
             NextValue(aborted, 0),
+            If(port.wdata.valid & port.wdata.ready, NextValue(wdata_taken, 1)),
+            If(~wishbone.cyc, NextValue(wdata_taken, 0)),
         )
         # When the master drops the cycle while the write data is still owed to the port (or a newer
         # access already waits behind an aborted one), keep offering data with all byte enables off:
@@ -73,19 +79,20 @@ class LiteDRAMWishbone2Native(LiteXModule):
         wr_aborted = Signal()
         self.comb += [
             wr_aborted.eq(fsm.ongoing("WRITE") & (~wishbone.cyc | aborted)),
-            port.wdata.valid.eq(wishbone.stb & wishbone.we),
+            port.wdata.valid.eq(wishbone.stb & wishbone.we & ~wdata_taken),
             If(ratio <= 1, If(~fsm.ongoing("WRITE"), port.wdata.valid.eq(0))),
             port.wdata.data.eq(wishbone.dat_w),
             port.wdata.we.eq(wishbone.sel),
-            If(wr_aborted,
+            If(wr_aborted & ~wdata_taken,
                 port.wdata.valid.eq(1),
                 port.wdata.we.eq(0),
             ),
         ]
         fsm.act("WRITE",
             NextValue(aborted, ~wishbone.cyc | aborted),
-            If(port.wdata.valid & port.wdata.ready,
+            If((port.wdata.valid & port.wdata.ready) | wdata_taken,
                 wishbone.ack.eq(wishbone.cyc & ~aborted),
+                NextValue(wdata_taken, 0),
                 NextState("CMD")
             ),
         )
